@@ -39,6 +39,10 @@ type Scenario struct {
 	// options+payload; only the header bytes (Len, extended length, code, token) are supplied.
 	OversizeAt int    `json:"oversizeAt"`
 	Declared   uint64 `json:"declared"`
+	// Queue is the received-message queue size (frames of one read burst pile up in it while the
+	// handler is busy); SlowMs lets the handler take that long (virtual time) per ordinary message.
+	Queue  int `json:"queue"`
+	SlowMs int `json:"slowMs,omitempty"`
 }
 
 func isSignal(code int) bool { return code >= 225 && code <= 229 }
@@ -160,8 +164,12 @@ func Exec(t *testing.T, sc Scenario, r *evid.Run) *evid.Failure {
 			mu.Lock()
 			g.msgs = append(g.msgs, m)
 			mu.Unlock()
+			if sc.SlowMs > 0 {
+				time.Sleep(time.Duration(sc.SlowMs) * time.Millisecond)
+			}
 		}
 		cc, err := endpoints.TCP(link.A, []tcp.Option{
+			options.WithReceivedMessageQueueSize(sc.Queue),
 			options.WithHandlerFunc(tcpClient.HandlerFunc(handler)),
 			options.WithMessagePool(pool.New(8, 2048)),
 			options.WithPeriodicRunner(tk.Runner()),
@@ -191,6 +199,11 @@ func Exec(t *testing.T, sc Scenario, r *evid.Run) *evid.Failure {
 			out = append(out, link.B.TakeAll()...)
 		}
 		bubble.Wait()
+		if sc.SlowMs > 0 {
+			// a sleeping handler is quiescent: give the queued messages their (virtual) time
+			time.Sleep(time.Duration(sc.SlowMs*(len(sc.Frames)+2)) * time.Millisecond)
+			bubble.Wait()
+		}
 		out = append(out, link.B.TakeAll()...)
 		select {
 		case <-cc.Done():
@@ -287,6 +300,8 @@ func gen(t *rapid.T) Scenario {
 		MaxMsg:     rapid.SampledFrom([]int{1152, 4096, 70000, 70000, 200000}).Draw(t, "maxmsg"),
 		OversizeAt: -1,
 		HeaderCuts: rapid.Bool().Draw(t, "hdrcuts"),
+		Queue:      rapid.SampledFrom([]int{0, 1, 2, 16, 16}).Draw(t, "queue"),
+		SlowMs:     rapid.SampledFrom([]int{0, 0, 1}).Draw(t, "slow"),
 	}
 	n := rapid.IntRange(1, 12).Draw(t, "nframes")
 	total := 0
@@ -388,9 +403,9 @@ func cutsEngine(t *testing.T) evid.Engine {
 			var scs []Scenario
 			for _, cache := range []int{1, 3, 2048} {
 				for i := 1; i < total; i++ {
-					scs = append(scs, Scenario{CacheSize: cache, MaxMsg: 70000, Frames: frames, OversizeAt: -1, Cuts: []int{i, 1 << 20}})
+					scs = append(scs, Scenario{CacheSize: cache, MaxMsg: 70000, Frames: frames, OversizeAt: -1, Queue: 16, Cuts: []int{i, 1 << 20}})
 					if i+1 < total {
-						scs = append(scs, Scenario{CacheSize: cache, MaxMsg: 70000, Frames: frames, OversizeAt: -1, Cuts: []int{i, 1, 1 << 20}})
+						scs = append(scs, Scenario{CacheSize: cache, MaxMsg: 70000, Frames: frames, OversizeAt: -1, Queue: 16, Cuts: []int{i, 1, 1 << 20}})
 					}
 				}
 			}
@@ -438,7 +453,7 @@ func TestCheck(t *testing.T) {
 		return f
 	})
 	r.Main(evid.Meta{
-		Rule:        "a stream connection (tcp.Client on an in-memory stream, connection cache size in {1,2,3,7,64,2048}) fed by the scripted peer with 1-12 frames from the C01 generator (all Len classes, TKL 0-8, signalling and ordinary codes, payloads beyond 65805 occasionally), cut by a generated segmentation (single bytes, cuts inside headers, several frames per segment), each segment followed by quiescence; optionally one frame is replaced by a header declaring more than the maximum message size (max, max+1, 2*max, next to 2^32) with no body byte supplied. Oracle: handler log and signal log equal the sent sequence whatever the segmentation, every Ping answered by a Pong with its token, oversize: nothing from that frame on is delivered and the connection is closed with an error reported. Non-trivial = >= 2 frames and a cut inside a header or >= 2 frames in one segment (measured: class framing/nontrivial-segmentation); distinct by scenario",
+		Rule:        "a stream connection (tcp.Client on an in-memory stream, connection cache size in {1,2,3,7,64,2048}, received-message queue 0/1/2/16, handler instantaneous or taking 1 virtual ms) fed by the scripted peer with 1-12 frames from the C01 generator (all Len classes, TKL 0-8, signalling and ordinary codes, payloads beyond 65805 occasionally), cut by a generated segmentation (single bytes, cuts inside headers, several frames per segment), each segment followed by quiescence; optionally one frame is replaced by a header declaring more than the maximum message size (max, max+1, 2*max, next to 2^32) with no body byte supplied. Oracle: handler log and signal log equal the sent sequence whatever the segmentation, every Ping answered by a Pong with its token, oversize: nothing from that frame on is delivered and the connection is closed with an error reported. Non-trivial = >= 2 frames and a cut inside a header or >= 2 frames in one segment (measured: class framing/nontrivial-segmentation); distinct by scenario",
 		Assumptions: []string{"connection cache size 0 is not a usable configuration and is not generated", "a frame's header is Len, extended length, code and token: all of them are supplied before the close is required"},
 		Floor:       300,
 	}, eng, cutsEngine(t))
